@@ -1,0 +1,18 @@
+//go:build !verif
+
+package control
+
+// Verification hooks (see verif_hooks_on.go). With the "verif" build tag off they
+// are empty and verifEnabled is a false constant, so the compiler removes them.
+
+const verifEnabled = false
+
+func verifYield(string) {}
+
+func verifObserveDomainRoutingSync(string, [][4]uint32, []bpfDomainRouting, [][4]uint32) {}
+
+func verifKernspaceSinkActive() bool { return false }
+
+func verifKernspaceSinkDeliver([]lpmMapResult, []bpfMatchSet, uint32) ([]uint32, error) {
+	return nil, nil
+}
